@@ -1020,22 +1020,21 @@ class ExcelCompiler:
                         # from, a formula stored without one (eg: "") is calced
                         cell_todos.append(precedent_address.address)
 
-            def calc(evaluate, address):
-                try:
-                    evaluate(address)
-                except Exception:
-                    # the stored results calculated from a cell or range
-                    # which can not be calculated are not results of this model
-                    failed = self.cell_map[address]
-                    for dependant in self.dep_graph.successors(failed):
-                        self._reset(dependant)
-                    raise
-
-            # calc the values for ranges
-            for range_todo in reversed(self.range_todos):
-                calc(self._evaluate_range, range_todo)
-            for cell_todo in cell_todos:
-                calc(self._evaluate, cell_todo)
+            try:
+                # calc the values for ranges
+                for range_todo in reversed(self.range_todos):
+                    self._evaluate_range(range_todo)
+                for cell_todo in cell_todos:
+                    self._evaluate(cell_todo)
+            except Exception:
+                # the stored results calculated from a cell or range which
+                # has not been calculated are not results of this model
+                for node in list(self.dep_graph.nodes()):
+                    if node.value is None and not self.cycles and (
+                            node.formula or isinstance(node, _CellRange)):
+                        for dependant in self.dep_graph.successors(node):
+                            self._reset(dependant)
+                raise
         finally:
             # also when connecting the graph failed: a range that can not be
             # evaluated would fail every later graph construction
